@@ -59,13 +59,31 @@ impl Expr {
         symtab: &Symtab,
         str_interner: &Rc<RefCell<StrInterner>>,
     ) -> Option<i32> {
+        self.evaluate_inner(symtab, str_interner, &mut Vec::new())
+    }
+
+    fn evaluate_inner(
+        &self,
+        symtab: &Symtab,
+        str_interner: &Rc<RefCell<StrInterner>>,
+        visiting: &mut Vec<StrRef>,
+    ) -> Option<i32> {
         let mut stack = Vec::new();
         for &node in &self.nodes {
             match node {
                 ExprNode::Value(value) => stack.push(value),
                 ExprNode::Label(strref) => match symtab.get(strref)?.inner() {
                     Symbol::Value(value) => stack.push(*value),
-                    Symbol::Expr(expr) => stack.push(expr.evaluate(symtab, str_interner)?),
+                    Symbol::Expr(expr) => {
+                        // a symbol defined in terms of itself can never be solved
+                        if visiting.contains(&strref) {
+                            return None;
+                        }
+                        visiting.push(strref);
+                        let value = expr.evaluate_inner(symtab, str_interner, visiting);
+                        visiting.pop();
+                        stack.push(value?);
+                    }
                 },
                 ExprNode::SizeOf(strref) => {
                     let meta = symtab.get(strref)?.meta();
